@@ -345,6 +345,9 @@ func CloseOpaque(query string, narrow bool) string {
 				if !keep[fmt.Sprintf("op:%s#%d", n, v)] {
 					continue
 				}
+			} else if narrow && !strings.HasPrefix(ln, "(assert (not ") && mentionsOtherOp(ln, keep) {
+				// narrow: facts about other versions of the predicate only feed instantiation chains
+				continue
 			}
 		}
 		sb.WriteString(ln)
@@ -368,4 +371,17 @@ func opSym(s string) (string, int) {
 	v := 0
 	fmt.Sscanf(s[i+1:], "%d", &v)
 	return s[:i], v
+}
+
+func mentionsOtherOp(ln string, keep map[string]bool) bool {
+	for i := 0; i+4 < len(ln); i++ {
+		if ln[i] == '|' && strings.HasPrefix(ln[i+1:], "op:") {
+			n, v := opSym(ln[i+1:])
+			if !keep[fmt.Sprintf("op:%s#%d", n, v)] {
+				return true
+			}
+			i += 3
+		}
+	}
+	return false
 }
